@@ -9,7 +9,7 @@ export GOFLAGS=-mod=mod GOPROXY=off GOSUMDB=off GOTOOLCHAIN=local GOWORK=off
 VERIF="$(pwd)"
 REPO="${VERIF_REPO:-/repo}"
 prop="$1"
-"$VERIF/bin/vcheck" -repo "$REPO" -verif "$VERIF" -prop "$prop" -tier thorough
+timeout 900 "$VERIF/bin/vcheck" -repo "$REPO" -verif "$VERIF" -prop "$prop" -tier thorough
 rc=$?
 if [ "$prop" != "all" ]; then
   python3 "$VERIF/tools/selftest.py" "$prop" || true
